@@ -180,6 +180,27 @@ def run_case(case):
                 st.quadratic_polynomial_expectation(A, b, 0.25, phi=0.3)))])
             o["purify_purity"] = guarded(lambda: [float(st.purify().get_purity())]) if d <= 2 else []
             r["obs"] = o
+        if case.get("search", False) and d >= 2:
+            # reduced / mean_photon_number(modes) / marginal probabilities for the mode tuple as
+            # given (any order), next to the quantities of the full state they must agree with
+            modes = tuple(case["modes"])
+            q = {}
+            red = st.reduced(modes)
+            q["reduced_xpxp"] = flat(red.xpxp_mean_vector) + flat(red.xpxp_covariance_matrix)
+            q["reduced_complex"] = cflat(red.complex_displacement) + cflat(red.complex_covariance)
+            q["full_xpxp_mean"] = flat(st.xpxp_mean_vector)
+            q["full_xpxp_cov"] = flat(st.xpxp_covariance_matrix)
+            q["full_complex_disp"] = cflat(st.complex_displacement)
+            q["full_complex_cov"] = cflat(st.complex_covariance)
+            q["mpn_modes"] = float(st.mean_photon_number(modes))
+            q["mpn_each"] = [float(st.mean_photon_number((a,))) for a in modes]
+            if hb == case["hbars"][0] and len(modes) >= 2:
+                def marg(ms):
+                    mp = st.get_marginal_fock_probabilities(tuple(ms))
+                    return [[list(map(int, key)), float(v)] for key, v in mp.items()]
+                q["marginal"] = guarded(lambda: marg(modes))
+                q["marginal_reversed"] = guarded(lambda: marg(modes[::-1]))
+            r["reduced_direct"] = q
         if case.get("consistency", False):
             k = {}
             # Wigner function against the product of one-mode Wigner functions is only valid
